@@ -119,6 +119,7 @@ def make_module(prop, theorem_names, what):
             if th["ok"]:
                 n_ok += 1
                 ctx.count("srctables_theorems_checked")
+                ctx.count("srctables_checked:CrCube.SourceTables.%s(axioms=%s)" % (nm, "+".join(th["axioms"]) or "none"))
             else:
                 findings.append({"kind": "model", "locus": "srctables." + nm,
                                  "detail": "generated theorem CrCube.SourceTables.%s (model table = table in %s's source) no "
